@@ -14,6 +14,7 @@ core.calculate_min_dz, Core._flow_model, _noflow_model, _duct_average_model (gap
 import copy
 
 import numpy as np
+import z3
 
 from symx import runner, core
 from harness import symregion as SR
@@ -58,7 +59,7 @@ def _self_weight(env, tag, dz, min_dz, c_ii, D, key):
     env.lemma('%s: criterion value is at most the limit of this cell type' % tag, min_dz <= D)
     env.lemma('%s: limit of this cell type is positive' % tag, D > 0)
     env.lemma('%s: self coefficient is an outflow (<= 0)' % tag, c_ii <= 0)
-    env.lemma('%s: self coefficient times the type limit is at most one' % tag, (0.0 - c_ii) * D <= 1, key=key)
+    env.lemma_le('%s: self coefficient times the type limit is at most one' % tag, (0.0 - c_ii) * D, 1.0, key=key)
     env.derive('%s: self weight 1 + dz*c >= 0' % tag, 1 + dz * c_ii >= 0,
                hyps=[dz > 0, dz <= min_dz, min_dz <= D, D > 0, c_ii <= 0, (0.0 - c_ii) * D <= 1],
                atoms=[c_ii, D, min_dz], key=key)
@@ -306,6 +307,150 @@ def body_lowfid(env):
             r._update_coolant_params = upd
 
 
+def body_gap(env):
+    """Inter-assembly gap, flow model: weights of the explicit gap update at the step the real core
+    criterion returns.  Two independent property / film-coefficient sets (inlet and outlet temperature)."""
+    from harness import symcore as SC
+    import dassh.core as cm
+    r = SC.build_reactor(env.params['layout'])
+    with env.patch(MODS + [cm]):
+        c = SC.sym_core(env, r)
+        n = c.n_sc
+        obj = env.mode == 'sym'
+        sets = {}
+        for tag, T in (('lo', 600.0), ('hi', 900.0)):
+            h = np.empty(n, dtype=object)
+            for i in range(n):
+                h[i] = env.pos('htc_%s_%d' % (tag, i), hi=1e7, nominal=3e4 + 50 * i + (0 if tag == 'lo' else 4e3))
+            sets[T] = dict(htc=h if obj else h.astype(float),
+                           mat=SC.GapMat(heat_capacity=env.pos('cp_' + tag, hi=1e6, nominal=1275.0 if tag == 'lo' else 1255.0),
+                                         thermal_conductivity=env.pos('k_' + tag, hi=1e4, nominal=75.0 if tag == 'lo' else 60.0),
+                                         density=850.0, viscosity=2.5e-4))
+            sets[T]['mat'].temperature = T
+
+        def upd(temp):
+            s_ = sets[float(temp)]
+            c.gap_coolant = s_['mat']
+            c.coolant_gap_params = dict(c.coolant_gap_params)
+            c.coolant_gap_params['htc'] = s_['htc']
+        c._update_coolant_gap_params = upd
+        upd(600.0)
+        env.stub('Core._update_coolant_gap_params switches between two arbitrary positive property / film-coefficient sets')
+        # per-cell limits as the criterion computes them: capture the array handed to np.min (and take the
+        # minimum without forking: min_dz is then a single term, min_dz <= D_f holds by definition of min)
+        seen = []
+        mins = []
+
+        class RecNP:
+            def __init__(self, inner):
+                self._inner = inner
+
+            def __getattr__(self, k):
+                return getattr(self._inner, k)
+
+            def min(self, a, *args, **kw):
+                seen.append(a)
+                if obj:
+                    m = None
+                    for x in np.ravel(a):
+                        m = x if m is None else core.sym_min(m, x)
+                    mins.append(m)
+                    return m
+                m = self._inner.min(a, *args, **kw)
+                mins.append(m)
+                return m
+        with env.patch([], extra={(cm, 'np'): RecNP(cm.np)}):
+            min_dz, _code = cm.calculate_min_dz(c, 600.0, 900.0)
+        Dsets = [a for a in seen if np.size(a) == n]
+        Msets = [m for a, m in zip(seen, mins) if np.size(a) == n]
+        decisions = [(e if t_ else z3.Not(e)) for e, t_ in core.CTX.decisions] if obj else []
+        dz = env.pos('dz', hi=10, nominal=1e-9)
+        env.assume(dz <= min_dz)
+
+        def zeros(shape, v=0.0):
+            return np.full(shape, v, dtype=object) if obj else np.full(shape, v)
+        adj = r.core._asm_sc_adj
+        for si, T0 in enumerate((600.0, 900.0)):
+            upd(T0)
+            c._update_coolant_gap_params = lambda *a, **k: None
+            tagT = 'inlet props' if T0 == 600.0 else 'outlet props'
+            # the per-cell limits the criterion computed with this property set (if it looked at it at all)
+            D = Dsets[si] if len(Dsets) == 2 else Dsets[-1]
+            M = Msets[si] if len(Msets) == 2 else Msets[-1]
+            env.derive('%s: criterion value is at most the smallest limit at this temperature' % tagT, min_dz <= M,
+                       hyps=decisions, atoms=list(Msets), lemma=True)
+
+            def run(Tg, Td, step):
+                c.coolant_gap_temp = Tg
+                return c._flow_model(step, Td)
+            C = []
+            for j in range(n):
+                Tg = zeros(n)
+                Tg[j] = 1.0
+                C.append(run(Tg, zeros(adj.shape), 1.0))
+            for f in range(n):
+                row = 0.0
+                for j in range(n):
+                    if _nz(C[j][f]):
+                        row = row + C[j][f]
+                        if j != f:
+                            env.ge('%s: weight of gap cell %d in new gap cell %d >= 0' % (tagT, j + 1, f + 1), C[j][f], 0.0)
+                wall = 0.0
+                for a in range(adj.shape[0]):
+                    for i in range(adj.shape[1]):
+                        if adj[a, i] - 1 == f:
+                            Td = zeros(adj.shape)
+                            Td[a, i] = 1.0
+                            w = run(zeros(n), Td, 1.0)[f]
+                            env.ge('%s: weight of duct cell (%d,%d) in new gap cell %d >= 0' % (tagT, a, i, f + 1), w, 0.0)
+                            wall = wall + w
+                env.eq('%s: gap cell %d: weights sum to one (coefficients sum to zero)' % (tagT, f + 1), row + wall, 0.0, tol=1e-9,
+                       scale=abs(float(C[f][f])) if not obj else 0.0)
+                # self weight: 1 + dz * c_ff >= 0 given dz <= min_dz
+                env.lemma('%s: gap cell %d: self coefficient is an outflow' % (tagT, f + 1), C[f][f] <= 0)
+                env.lemma('%s: gap cell %d: its step limit is positive' % (tagT, f + 1), D[f] > 0)
+                env.derive('%s: gap cell %d: smallest limit is at most its step limit' % (tagT, f + 1), M <= D[f],
+                           hyps=[], atoms=list(D), lemma=True)
+                env.lemma_le('%s: gap cell %d: self coefficient times its step limit is at most one' % (tagT, f + 1),
+                             (0.0 - C[f][f]) * D[f], 1.0, key='negative_weight_gap')
+                env.derive('%s: gap cell %d: self weight 1 + dz*c >= 0' % (tagT, f + 1), 1 + dz * C[f][f] >= 0,
+                           hyps=[dz > 0, dz <= min_dz, min_dz <= M, M <= D[f], D[f] > 0, C[f][f] <= 0, (0.0 - C[f][f]) * D[f] <= 1],
+                           atoms=[C[f][f], D[f], min_dz, M], key='negative_weight_gap')
+            c._update_coolant_gap_params = upd
+
+
+def body_gap_static(env):
+    """no-flow and duct-average gap models: the new gap temperature is a convex combination of the
+    adjacent duct-wall temperatures and (no-flow) the neighbouring gap temperatures, for any step."""
+    from harness import symcore as SC
+    import dassh.core as cm
+    model = env.params['model']
+    r = SC.build_reactor(env.params['layout'], gap_model=model)
+    with env.patch(MODS + [cm]):
+        c = SC.sym_core(env, r)
+        n = c.n_sc
+        obj = env.mode == 'sym'
+        adj = r.core._asm_sc_adj
+        td = np.full(adj.shape, 0.0, dtype=object) if obj else np.zeros(adj.shape)
+        for a in range(adj.shape[0]):
+            for i in range(adj.shape[1]):
+                if adj[a, i] > 0:
+                    td[a, i] = env.real('Tduct_%d_%d' % (a, i), lo=200, hi=3000)
+        T0 = c.coolant_gap_temp.copy()
+        new = c._noflow_model(td) if model == 'no_flow' else c._duct_average_model(td)
+        sadj = r.core._sc_adj
+        for f in range(n):
+            vals = [td[a, i] for a in range(adj.shape[0]) for i in range(adj.shape[1]) if adj[a, i] - 1 == f]
+            if model == 'no_flow':
+                vals += [T0[sadj[f, j] - 1] for j in range(3) if sadj[f, j] > 0]
+            lo, hi = vals[0], vals[0]
+            for v in vals[1:]:
+                lo = core.sym_min(lo, v) if obj else min(lo, v)
+                hi = core.sym_max(hi, v) if obj else max(hi, v)
+            env.ge('%s: new gap cell %d >= min of the temperatures it is coupled to' % (model, f + 1), new[f], lo)
+            env.le('%s: new gap cell %d <= max of the temperatures it is coupled to' % (model, f + 1), new[f], hi)
+
+
 def instances(tier):
     inst = []
     for n in ((2, 3) if tier == 'quick' else (2, 3, 4, 5)):
@@ -327,6 +472,11 @@ def instances(tier):
                                                                    'adiabatic': adiabatic, 'bypass': bi}, timeout_ms=120000, max_paths=64))
     for n in (2, 3):
         inst.append(dict(label='stagnant-bypass[rings=%d]' % n, body=body_stagnant, params={'n_ring': n, 'n_duct': 2}))
+    for lay in (('one-a2', 'two-a2-a3', 'three-a2-a3-ur') if tier == 'quick' else ('one-a2', 'two-a2-a3', 'three-a2-a3-ur', 'three-a3-dd-u6', 'ring-no-centre')):
+        inst.append(dict(label='gap-flow[%s]' % lay, body=body_gap, params={'layout': lay}, max_paths=64, timeout_ms=8000))
+        for model in ('no_flow', 'duct_average'):
+            inst.append(dict(label='gap-%s[%s]' % (model, lay), body=body_gap_static, params={'layout': lay, 'model': model},
+                             max_paths=64, timeout_ms=60000))
     for model in ('simple', '6node'):
         for conv in (False, True):
             for adiabatic in (False, True):
